@@ -226,12 +226,12 @@ func (m *infixModel) singleVariadic(p *pwPath, t *opTab, v ssa.Value, depth int)
 	}
 	side := ""
 	n := 0
-	for _, ref := range *al.Referrers() {
+	for _, ref := range p.referrers(al) {
 		ia, ok := ref.(*ssa.IndexAddr)
 		if !ok {
 			continue
 		}
-		for _, r2 := range *ia.Referrers() {
+		for _, r2 := range p.referrers(ia) {
 			if st, ok := r2.(*ssa.Store); ok {
 				n++
 				side, _ = m.atomOf(p, t, st.Val, depth+1)
